@@ -226,3 +226,5 @@ func vpOneRecord(i, extra int) []byte {
 }
 
 func vpKeyOf(rec any) []byte { return vpKey(rec.(*SAM)) }
+
+func vpBlankLinesOK() bool { return true }
